@@ -54,7 +54,7 @@ theorem tick_tie {T I : Nat} (s : S T I) (h : WF s) :
   by_cases hov : s.accumulator + s.increment < 2 ^ 32
   · have hge : ¬ (abs s).acc + (abs s).inc ≥ 2 ^ 32 := by simp only [abs]; omega
     rw [if_neg hge]
-    simp only [uadd, chk, hov, if_true, bind, Option.bind, pure]
+    simp only [uadd, chk, U32.bound, hov, if_true, bind, Option.bind, pure]
     by_cases hr : s.rollover_mask < s.accumulator + s.increment
     · simp only [hr, decide_true, if_true]
       refine ⟨?_, fun s' hs' => ?_⟩
@@ -69,7 +69,7 @@ theorem tick_tie {T I : Nat} (s : S T I) (h : WF s) :
       · cases hs'; exact ⟨h.bits, h.idx, hm⟩
   · have hge : (abs s).acc + (abs s).inc ≥ 2 ^ 32 := by simp only [abs]; omega
     rw [if_pos hge]
-    simp [uadd, chk, hov, bind, Option.bind]
+    simp [uadd, chk, U32.bound, hov, bind, Option.bind]
 
 theorem set_frequency_tie {T I : Nat} (s : S T I) (h : WF s) (f : F32) :
     Refines (PhaseAccumulator.set_frequency s f) ((abs s).setFrequency f) := by
@@ -111,7 +111,7 @@ theorem fraction_tie {T I : Nat} (s : S T I) (h : WF s) : PhaseAccumulator.fract
   have h1 : 1 ≤ 2 ^ (T - I) := Nat.one_le_two_pow
   have h2 := two_pow_lt h3
   have h4 : 2 ^ (T - I) - 1 + 1 = 2 ^ (T - I) := by omega
-  simp [PhaseAccumulator.fraction, usub, h.idx, shl_one h3, h1, uadd, chk, h4, h2, abs, PhaseAcc.fraction,
+  simp [PhaseAccumulator.fraction, usub, h.idx, shl_one h3, h1, uadd, chk, U32.bound, h4, h2, abs, PhaseAcc.fraction,
     Nat.and_two_pow_sub_one_eq_mod]
 
 theorem rolled_over_tie {T I : Nat} (s : S T I) (h : WF s) :
